@@ -821,3 +821,17 @@ Proof.
   { cbn [api_fin]. rewrite EC. destruct FF as [-> | ->]; destruct v as [|bb|[|[|n]]]; cbn [fst guard]; try reflexivity; now contradiction V1. }
   unfold TB in T. rewrite G in T. destruct T as [P _]. exact P.
 Qed.
+
+(* ---------------------------------------------------------------- C10 on every schedule: user panics never kill a lock *)
+(* whatever the threads do — panics with live guards and inside closures included — no lock is ever marked unusable (the
+   kill flag is set only when a raw lock operation itself panics) *)
+Theorem every_schedule_never_killed yr pb b sched l :
+  wfB b = true ->
+  let sc := bs_sc b in
+  w_kill (b_w (fst (run_sched_g false yr pb (bs_wp b) (sc_env sc) (sc_nlocks sc) (binit b) sched))) l = false.
+Proof.
+  intros W sc.
+  pose proof (reach_GI_dec (fun _ => rank_ok (sc_nlocks sc) (rk_of sc)) (fun _ => rank_okb (sc_nlocks sc) (rk_of sc))
+                           (fun _ H l => rank_okb_ok _ _ H l) yr pb b sched W) as G.
+  exact (proj2 (proj2 (gi_clean _ _ _ _ G)) l).
+Qed.
